@@ -49,6 +49,15 @@ CapT(D) == LET C == CupT(RevSeq(D)) IN [dom |-> <<>>, cod |-> C.dom, a |-> C.a] 
 \* caps(t, t.l) = dagger of cups: () -> t (x) reverse(t)
 CapOf(D) == ConjT(CupT(D))
 Whisker(l, A, r) == Kron(Kron(IdT(l), A), IdT(r))
+\* entrywise operations
+MapT(A, f(_)) == [A EXCEPT !.a = TLCEval([k \in 1..Len(A.a) |-> f(A.a[k])])]
+ScaleT(s, A) == MapT(A, LAMBDA v : RMul(s, v))
+AddT(A, B) == [A EXCEPT !.a = TLCEval([k \in 1..Len(A.a) |-> RAdd(A.a[k], B.a[k])])]
+\* the spider with n legs in and m legs out on a wire of dimension dd: 1 iff all indices agree
+SpiderT(n, m, dd) == T([k \in 1..n |-> dd], [k \in 1..m |-> dd],
+   LAMBDA r, c : LET x == Digits(r, [k \in 1..n |-> dd]) \o Digits(c, [k \in 1..m |-> dd]) IN
+                 IF n + m = 0 THEN (LET f(i) == ROne IN SumTo(f, dd))      \* no leg: the sum over the basis
+                 ELSE IF \A i, j \in 1..(n + m) : x[i] = x[j] THEN ROne ELSE RZero)
 \* dropping wires of dimension 1 (what Dim does)
 Norm1(D) == SelectSeq(D, LAMBDA x : x # 1)
 =============================================================================
